@@ -233,7 +233,9 @@ func (o *c16) End(x *hctx) string {
 				content := hist.Bytes(700, 3, uint64(n))
 				name := fmt.Sprintf("/zz-new-%d", n)
 				wrote := true
-				for _, st := range []hist.Step{{Op: "create", Path: name, Slot: 0}, {Op: "write", Slot: 0, Size: 700, Dist: 3, Seed: uint64(n)}, {Op: "close", Slot: 0}, {Op: "mkdir", Path: name + "-dir", Perm: 0755}} {
+				follow := []hist.Step{{Op: "create", Path: name + "-tmp", Slot: 0}, {Op: "write", Slot: 0, Size: 700, Dist: 3, Seed: uint64(n)}, {Op: "close", Slot: 0},
+					{Op: "rename", Path: name + "-tmp", Path2: name}, {Op: "mkdir", Path: name + "-d0", Perm: 0755}, {Op: "rename", Path: name + "-d0", Path2: name + "-dir"}}
+				for _, st := range follow {
 					res := r.Do(st)
 					if res.Hang != nil {
 						failf(x.f, "%s: follow-up %s: %s", what, st, res.Hang.Detail)
